@@ -18,6 +18,14 @@ INTERNAL_MAX = {(1, 4): 14, (1, 5): 17, (2, 0): 28, (2, 1): 28, (2, 2): 33}
 RELEASE = re.compile(r"^(\d+)\.(\d+)(\.\d+){0,2}$")
 
 
+def lib_valid(version):
+    try:
+        from awesomeversion import AwesomeVersion
+        return bool(AwesomeVersion(version).valid)
+    except Exception:  # noqa: BLE001
+        return False
+
+
 def select(version):
     """C05: newest supported protocol whose major.minor <= the release version; None if not a release version string."""
     if version is None:
@@ -94,8 +102,21 @@ class Ref:
     def set_version(self, p):
         s = select(p)
         if s is None:
+            if lib_valid(p):
+                # not a release version string (outside C05's quantifier) but a version for the version library ("2", "latest", "v2.1"):
+                # the reference follows the library's reading of it (A-AV): sections 0 and 1, missing ones are 0
+                from awesomeversion import AwesomeVersion
+                v = AwesomeVersion(p)
+                mm = (int(v.section(0)), int(v.section(1)))
+                best = (1, 4)
+                for sup in SUPPORTED:
+                    if sup <= mm:
+                        best = sup
+                self.version, self.force_proto = p, best
+                return
             raise Err("InvalidMessageError", lenient=True)
         self.version = p
+        self.force_proto = None
 
     def missing(self, kind, **attrs):
         n = attrs["_n"]
@@ -214,6 +235,9 @@ class Ref:
             self.pending[(n, c, t)] = enc(n, c, k, a, t, p)
         else:
             self.w(enc(n, c, k, a, t, p))
+            if k == 1 and buffer:
+                # C07 "carrying the most recently sent value": a value written directly supersedes an older one still parked for its key
+                self.pending.pop((n, c, t), None)
 
     def view(self):
         return {n: (d["type"], d["ver"], d["battery"], d["heartbeat"], d["sketch_name"], d["sketch_version"], d["sleeping"],
@@ -325,7 +349,8 @@ def drive(gw, tr, ref, steps):
                 elif exp[0] != real_out[0] or (exp[0] == "error" and exp[1] != real_out[1]):
                     lenient = exp[0] == "error" and (exp[2].get("lenient") or exp[2].get("range_choice"))
                     if not (lenient and real_out[0] == "yield"):
-                        diffs.append(({"C04", "C05", "C03"}, f"step {i} {line!r}: outcome {real_out} expected {exp[:2]}"))
+                        unreported = exp[0] == "error" and exp[1] == "TransportError"  # a failed write that the caller of listen never sees
+                        diffs.append(({"C08", "C10", "C06"} if unreported else {"C04", "C05", "C03"}, f"step {i} {line!r}: outcome {real_out} expected {exp[:2]}"))
                 elif exp[0] == "error":
                     for k in ("node_id", "child_id"):
                         if k in exp[2] and real_out[2].get(k) != exp[2][k]:
@@ -375,7 +400,14 @@ def drive(gw, tr, ref, steps):
             diffs.append(({"C05"}, f"step {i} {st!r}: decoder rules differ from handler rules"))
         if ref.version != gw.protocol_version:
             if select(gw.protocol_version) is None and gw.protocol_version is not None:
-                diffs.append(({"C05"}, f"step {i} {st!r}: rejected version {gw.protocol_version!r} was recorded"))
+                # not a release version string major.minor[.patch[.build]]: outside C05's quantifier.  Whether it is a version at
+                # all is the version library's call ("2", "latest", "v2.1" are); only a string the library itself calls invalid
+                # must not be recorded.  From here on the reference follows the rules the real gateway selected for it.
+                if not lib_valid(gw.protocol_version):
+                    diffs.append(({"C05"}, f"step {i} {st!r}: rejected version {gw.protocol_version!r} was recorded"))
+                ref.force_proto = tuple(int(x) for x in gw.protocol.VERSION.split("."))
+            else:
+                ref.force_proto = None if getattr(ref, "force_proto", None) is not None and select(gw.protocol_version) is not None else getattr(ref, "force_proto", None)
             ref.version = gw.protocol_version
         rp = {k: enc(m.node_id, m.child_id, m.command, m.ack, m.message_type, m.payload) for k, m in gw._message_buffer.set_messages.items()}
         if rp != ref.pending:
